@@ -22,6 +22,8 @@ mod wire;
 
 mod common;
 mod c17;
+mod deltacases;
+mod c01;
 
 use common::*;
 
@@ -59,6 +61,8 @@ fn main() {
     let ctx = Ctx { id: id.clone(), tier, seed, start: std::time::Instant::now(), replay };
     match id.as_str() {
         "C17" => c17::run(&ctx),
+        "C01" => c01::run_c01(&ctx),
+        "C16" => c01::run_c16(&ctx),
         _ => machinery_error(format!("unknown property id {id}")),
     }
 }
